@@ -145,7 +145,7 @@ class World:
                     for k, (n, _v) in enumerate(spec["script"]):
                         self.assign(tidx, NAMES[n], self.script_vals[wid][k], scripted=wid)
                 self.trace.append(("raise", wid))
-                raise Fault(f"watcher {wid} invocation {self.calls[wid]}")
+                raise FAULT_CLASSES[spec.get("fault_exc", "Fault")](f"watcher {wid} invocation {self.calls[wid]}")
             uw = spec.get("unwatch_on_call")
             if uw is not None and not self.unwatched_in_cb.get(wid) and uw < len(self.specs) and self.handles[uw] is not None \
                     and self.specs[uw].get("dup_of") is None and not any(sp.get("dup_of") == uw for sp in self.specs):
@@ -191,3 +191,18 @@ class World:
 
 class Fault(Exception):
     pass
+
+
+class FaultValueError(Fault, ValueError):
+    """a callback's failure that happens to be a ValueError (what param itself raises for a rejected value)"""
+
+
+class FaultTypeError(Fault, TypeError):
+    pass
+
+
+class FaultKeyError(Fault, KeyError):
+    pass
+
+
+FAULT_CLASSES = {"Fault": Fault, "ValueError": FaultValueError, "TypeError": FaultTypeError, "KeyError": FaultKeyError}
